@@ -122,6 +122,13 @@ func opRngs(f []string) string {
 	l := &ranges.InclusiveRanges{}
 	for _, t := range h {
 		l.AppendUnique(t[0], t[1], t[2])
+		// pure observers between the appends (they may fill caches, they must not change anything)
+		_ = l.Len()
+		_ = l.End()
+		_ = l.Min() + l.Max()
+		_ = l.Index(t[1])
+		_, _ = l.Value(l.Len() - 1)
+		_ = l.Contains(t[0] + t[2])
 	}
 	var o Obs
 	obsRanges(&o, l, qi, qv)
